@@ -359,13 +359,10 @@ func (c *CSVToFITConv) createDeveloperField(name, strValue, units string) (devFi
 		return
 	}
 
-	scale, offset := 1.0, 0.0 // default
-	if fieldDesc.Scale != basetype.Uint8Invalid {
-		scale = float64(fieldDesc.Scale)
-	}
-	if fieldDesc.Offset != basetype.Sint8Invalid {
-		offset = float64(fieldDesc.Offset)
-	}
+	// FITToCSVConv writes a developer field's value as it is, in raw and in scaled mode alike: it never applies the
+	// scale and offset of the field description, so they must not be discarded here either (parseValue un-scales
+	// every cell whose text contains a '.': a float32 0.5 described with scale 100 came back as 50).
+	const scale, offset = 1.0, 0.0
 
 	devField = proto.DeveloperField{
 		DeveloperDataIndex: fieldDesc.DeveloperDataIndex,
